@@ -601,6 +601,11 @@ class Sym(Exec):
         mods = self.loop_modifies(st, n, cond, inc, body, spec)
         # 3. havoc
         self.havoc(st, mods, tag)
+        # optional pack-supplied havoc step for things the write log cannot see, e.g. a heap block that the body
+        # realloc()s (new object, new length): spec.havoc_hook(engine, state) must only *forget* facts
+        hook = getattr(spec, "havoc_hook", None)
+        if hook is not None:
+            hook(self, st)
         invs = inv_list(st)
         for nm, g in invs:
             st.assume(g)
